@@ -36,6 +36,7 @@ func init() {
 			{Name: "endtoend", Stream: c15StreamE2E, Eval: c15EvalE2E},
 			{Name: "random", N: constN(6000, 150000), Gen: c15GenRandom, Eval: c15EvalE2E},
 			{Name: "annotation", Stream: c15StreamAnnotation, Eval: c15EvalAnnotation},
+			{Name: "what-follows", N: func(string) int { return c15FollowCount() }, Gen: c15GenFollow, Eval: c15EvalFollow},
 		},
 		Floors: map[string]int64{"direct_checked": 20000, "e2e_pairs_checked": 3000, "annotations_checked": 2000},
 	})
@@ -531,4 +532,125 @@ func c15EvalAnnotation(t *fw.T, c *fw.Case) {
 	}
 	t.Distinct("ann " + host + " " + textShape(src))
 	t.Sample("annotation/"+host, map[string]interface{}{"text": src, "catalog": fl})
+}
+
+
+// ---- what may follow a bare description: every directive kind, every response-code class, every line-end style ----
+
+type c15Follow struct {
+	text string            // follows the description (already indented for its place)
+	tail string            // declarations it needs, appended at the end
+	file map[string]string // files an INCLUDE needs
+}
+
+var c15Codes = []string{"100", "101", "199", "200", "201", "204", "299", "300", "301", "399", "400", "404", "418", "499", "500", "501", "503", "599"}
+
+var c15TopFollowers = []c15Follow{
+	{text: "GET /zb\n  200 any\n"}, {text: "POST /zb\n  200 any\n"}, {text: "PUT /zb\n  200 any\n"}, {text: "PATCH /zb\n  200 any\n"}, {text: "DELETE /zb\n  200 any\n"},
+	{text: "URL /zc\n  GET\n    200 any\n"}, {text: "TYPE @zx any\n"}, {text: "TYPE @zx\n{}\n"}, {text: "ENUM @ze\n[1]\n"}, {text: "SERVER @zs\n  BaseUrl \"https://a/\"\n"},
+	{text: "TAG @zt\n"}, {text: "MACRO @zm\n(\n  TYPE @zy any\n)\n"}, {text: "PASTE @zm2\n", tail: "MACRO @zm2\n(\n  TYPE @zy2 any\n)\n"},
+	{text: "INCLUDE inc.jst\n", file: map[string]string{"inc.jst": "TYPE @zinc any\n"}}, {text: "INCLUDE \"inc.jst\"\n", file: map[string]string{"inc.jst": "TYPE @zinc any\n"}},
+	{text: "\nTYPE @zx any\n"}, {text: "\n\n  \nTYPE @zx any\n"},
+}
+
+func c15FollowersOf(host string) []c15Follow {
+	var out []c15Follow
+	switch host {
+	case "http":
+		out = append(out, c15Follow{text: "  Tags @ft\n", tail: "TAG @ft\n"}, c15Follow{text: "  Query\n  {}\n"}, c15Follow{text: "  Query noFormat\n  {}\n"},
+			c15Follow{text: "  Path\n  {\"id\": 1}\n"}, c15Follow{text: "  Request any\n"}, c15Follow{text: "  Request\n  {}\n"}, c15Follow{text: "  Request regex\n  /a/\n"},
+			c15Follow{text: "  INCLUDE inc.jst\n", file: map[string]string{"inc.jst": "  200 any\n"}}, c15Follow{text: "  PASTE @zr\n", tail: "MACRO @zr\n(\n  200 any\n)\n"})
+		for _, code := range c15Codes {
+			out = append(out, c15Follow{text: "  " + code + " any\n"}, c15Follow{text: "  " + code + "\n  {}\n"}, c15Follow{text: "  " + code + " // note\n  {}\n"}, c15Follow{text: "  " + code + "\n    Body any\n"})
+		}
+	case "info":
+		out = append(out, c15Follow{text: "  Version 2\n"}, c15Follow{text: "  Version \"2\"\n"})
+	case "rpc":
+		out = append(out, c15Follow{text: "    Tags @ft\n", tail: "TAG @ft\n"}, c15Follow{text: "    Params\n    {}\n"}, c15Follow{text: "    Result\n    {}\n"}, c15Follow{text: "    Params\n    {}\n    Result\n    {}\n"},
+			c15Follow{text: "  Method m2\n    Params\n    {}\n"})
+	case "tag":
+		out = append(out, c15Follow{text: "  TAG @sub\n"})
+	}
+	return append(out, c15TopFollowers...)
+}
+
+var c15FollowTexts = []string{"  one line", "  first line\n  second line", "    indented:\n\n  after a blank line\n  see GET /x, 2000 items #1"}
+
+func c15FollowCount() int {
+	n := 0
+	for _, h := range c15Hosts {
+		n += len(c15FollowersOf(h)) * 3 * len(c15FollowTexts)
+	}
+	return n
+}
+
+func c15GenFollow(r *xrand.Rand, idx int, tier string) *fw.Case {
+	for _, h := range c15Hosts {
+		ff := c15FollowersOf(h)
+		k := len(ff) * 3 * len(c15FollowTexts)
+		if idx < k {
+			return &fw.Case{Meta: map[string]string{"host": h}, Ints: map[string]int{"f": idx / (3 * len(c15FollowTexts)), "nl": idx / len(c15FollowTexts) % 3, "t": idx % len(c15FollowTexts)}, Docs: []run.Doc{{}}}
+		}
+		idx -= k
+	}
+	return &fw.Case{Meta: map[string]string{"host": "info"}, Ints: map[string]int{}, Docs: []run.Doc{{}}}
+}
+
+func c15EvalFollow(t *fw.T, c *fw.Case) {
+	host := c.Meta["host"]
+	f := c15FollowersOf(host)[c.Ints["f"]]
+	text := c15FollowTexts[c.Ints["t"]]
+	nl := []string{"\n", "\r\n", "\r"}[c.Ints["nl"]]
+	mk := func(body string) run.Doc {
+		var head string
+		switch host {
+		case "info":
+			head = "JSIGHT 0.3\nINFO\n  Title \"t\"\n  Description\n"
+		case "http":
+			head = "JSIGHT 0.3\nGET /a/{id}\n  Description\n"
+		case "rpc":
+			head = "JSIGHT 0.3\nURL /r\n  Protocol json-rpc-2.0\n  Method m\n    Description\n"
+		default:
+			head = "JSIGHT 0.3\nTAG @t\n  Description\n"
+		}
+		doc := head + body + "\n" + f.text + f.tail
+		files := map[string][]byte{"root.jst": []byte(strings.ReplaceAll(doc, "\n", nl))}
+		for k, v := range f.file {
+			files[k] = []byte(strings.ReplaceAll(v, "\n", nl))
+		}
+		d := run.Doc{Files: files, Root: "root.jst"}
+		d.FixedSeed = true
+		return d
+	}
+	db, dp := mk(text), mk("(\n"+text+"\n)")
+	c.Docs = []run.Doc{db, dp}
+	ob, op := t.Exec(db), t.Exec(dp)
+	t.Count("followers_checked")
+	what := strings.TrimSpace(strings.SplitN(f.text, "\n", 2)[0])
+	if what == "" || strings.HasPrefix(what, "#") {
+		what = "comment-or-blank-then-TYPE"
+	}
+	if w := strings.Fields(what); len(w) > 0 && len(w[0]) == 3 && w[0][0] >= '1' && w[0][0] <= '5' {
+		what = string(w[0][0]) + "xx" + strings.TrimPrefix(what, w[0])
+	}
+	sig := host + ":" + what + ":" + map[string]string{"\n": "LF", "\r\n": "CRLF", "\r": "CR"}[nl]
+	if op.Outcome != run.Accepted {
+		t.Violation("follower-template-rejected:"+sig, fmt.Sprintf("the parenthesised spelling is not accepted: %s\n%q", describe(op), dp.Files["root.jst"]))
+		return
+	}
+	if ob.Outcome != run.Accepted {
+		t.Violation("follower-verdict:"+sig, fmt.Sprintf("a bare description followed by %q: %s, while the parenthesised spelling is accepted\n%q", f.text, describe(ob), db.Files["root.jst"]))
+		return
+	}
+	if string(ob.JSON) != string(op.JSON) {
+		a, _ := jsonx.Parse(ob.JSON)
+		b, _ := jsonx.Parse(op.JSON)
+		diff := ""
+		if a != nil && b != nil {
+			diff = jsonx.Diff(a.Root, b.Root, "$")
+		}
+		t.Violation("follower-catalog:"+sig, fmt.Sprintf("a bare description followed by %q reads differently from the parenthesised spelling: %s\n%q", f.text, diff, db.Files["root.jst"]))
+		return
+	}
+	t.Distinct("follow " + sig)
 }
